@@ -216,6 +216,15 @@ def detached_problems(d, S, X, v, hop):
     for c, ap, asp, jp in kept:
         try:
             twin = type(c).create_from(c)
+            # the copy owns its paths: relocating the copy (prefixing a document name) leaves the original alone
+            keep = (list(c.path), list(c.schema_path))
+            twin.path.appendleft("relocated")
+            twin.schema_path.appendleft("relocated")
+            if (list(c.path), list(c.schema_path)) != keep:
+                problems.append("create_from: relocating the copy moved the original error as well")
+                break
+            twin.path.popleft()
+            twin.schema_path.popleft()
             below = [(list(k.absolute_path), list(k.absolute_schema_path)) for k in c.context]
             if list(twin.absolute_path) != ap or list(twin.absolute_schema_path) != asp or twin.json_path != jp:
                 problems.append("create_from: the copy of a context error reports other absolute paths than the original")
@@ -418,9 +427,11 @@ def plan(ctx):
         for kind in ("groups", "nested"):
             units += [(d, "observed:" + kind, i, 4) for i in range(4)]
         units.append((d, "custom", 0, 1))
+        units.append((d, "many", 0, 1))
     return {
         "units": units,
-        "rule": ("OBSERVERS: sibling groups and nested schemas x U_d validated by the draft's class with every "
+        "rule": ("MANY SCHEMAS: one validator object handed ~1000 short-lived schema objects in turn (twice): every "
+                 "error names the keyword / value / schema it came from.  OBSERVERS: sibling groups and nested schemas x U_d validated by the draft's class with every "
                  "keyword wrapped by an observer that reads each passing error's absolute paths / json_path / "
                  "parent (context included): all invariants, and the same error identities as the plain class.  "
                  "HAND-MADE ERRORS: extension keywords that construct their errors with path / instance / "
@@ -553,6 +564,54 @@ def custom_problems(d, S, X):
     return n, problems
 
 
+def run_many_schemas(unit, ctx):
+    """ONE validator object is handed several hundred short-lived schema objects (iter_errors(x, schema)), more than
+    any bounded table would hold: every error still names the keyword, value and schema it really came from."""
+    d = unit[0]
+    U = get_ud()[:6]
+    w = _e1.CLS[d]({})
+    lst = _e1.get_list("singles", d, ctx.tier) + _e1.get_list("groups", d, ctx.tier)[:400]
+    ev = nt = 0
+    viol = []
+    for rounds in range(2):
+        for i, S0 in enumerate(lst):
+            if not isinstance(S0, dict) or not _e1.accepted(d, S0):
+                continue
+            import json as _json
+            S = _json.loads(_json.dumps(S0))          # a new object every time; the previous one is garbage by now
+            X = U[(i + rounds) % len(U)]
+            ev += 1
+            try:
+                errors = list(w.iter_errors(X, S))
+            except Exception as ex:
+                viol.append({"signature": "C06|many-schemas|crash-%s" % type(ex).__name__, "size": i,
+                             "case": {"draft": d, "many": True, "upto": i, "round": rounds}, "detail": {}})
+                break
+            problems = []
+            for e in errors:
+                nt += 1
+                if e.validator is None:
+                    continue
+                if not isinstance(e.schema, dict) or e.validator not in e.schema or not same(e.schema[e.validator], e.validator_value):
+                    problems.append("recorded schema does not hold the recorded value under the recorded keyword")
+                elif not list(e.schema_path) or list(e.schema_path)[-1] != e.validator:
+                    problems.append("the recorded keyword is not the last element of the schema path")
+                else:
+                    try:
+                        last, value, _ = walk_schema(S, list(e.absolute_schema_path), local_hop(S))
+                        if not same(value, e.validator_value):
+                            problems.append("schema path of the schema asked about leads to another value than recorded")
+                    except Walk:
+                        problems.append("schema path cannot be walked in the schema asked about")
+            if problems:
+                viol.append({"signature": "C06|many-schemas|%s" % problems[0][:40], "size": i,
+                             "case": {"draft": d, "many": True, "upto": i, "round": rounds},
+                             "detail": {"problems": problems[:3], "schema": S}})
+                break
+    return {"evaluations": ev, "nontrivial": nt, "violations": viol, "samples": [], "outcomes": {},
+            "counters": {"ephemeral_schemas_through_one_validator": ev}}
+
+
 def run_custom(unit, ctx):
     d = unit[0]
     U = get_ud()
@@ -578,6 +637,8 @@ def run_unit(unit, ctx):
         return run_observed(unit, ctx)
     if unit[1] == "custom":
         return run_custom(unit, ctx)
+    if unit[1] == "many":
+        return run_many_schemas(unit, ctx)
     if isinstance(unit[1], str) and unit[1].startswith("ref:"):
         return run_ref_unit(unit, ctx)
     d = unit[0]
@@ -610,6 +671,9 @@ def run_unit(unit, ctx):
 
 
 def replay(case, ctx):
+    if case.get("many"):
+        r = run_many_schemas((case["draft"], "many", 0, 1), ctx)
+        return {"reproduced": bool(r["violations"]), "violations": [v["signature"] for v in r["violations"]]}
     if case.get("custom"):
         n, problems = custom_problems(case["draft"], case["schema"], case["instance"])
         return {"reproduced": bool(problems), "problems": problems}
